@@ -4,6 +4,7 @@
 package checks
 
 import (
+	"context"
 	"fmt"
 	"runtime"
 	"sort"
@@ -216,9 +217,18 @@ func fragFn(seed uint64, mode int) func(int) int {
 // Load returns a lazily reified node), as boxo's gateway back-ends do.
 func newWorld(st *store.Store, trusted, withNodeReifier bool) *world.World {
 	if withNodeReifier {
-		return world.NewWithNodeReifier(st, trusted)
+		w := world.NewWithNodeReifier(st, trusted)
+		w.Ctx = context.Background()
+		return w
 	}
+	// no context: Reify(LinkContext{}, ...) is what callers without one do
 	return world.New(st, trusted)
+}
+
+// newDerivedWorld: reifiers installed on a base link system, the run works on
+// an instrumented copy of it (see world.NewDerived).
+func newDerivedWorld(st *store.Store, trusted bool) *world.World {
+	return world.NewDerived(st, trusted)
 }
 
 func min(a, b int) int {
